@@ -262,7 +262,7 @@ class Syphilis(ss.Infection):
 
                 # Birth outcomes must be modified to add probability of susceptible birth
                 birth_outcomes = self.pars.birth_outcomes[state]
-                assigned_outcomes = birth_outcomes.rvs(len(state_uids))
+                assigned_outcomes = birth_outcomes.rvs(state_uids)
                 time_to_birth = -sim.people.age.raw # TODO: make nicer
 
                 # Schedule events
